@@ -110,7 +110,16 @@ fn attrs(attrs: &[syn::Attribute]) -> Result<SerdeAttrs, String> {
                                 return Err(m.error(format!("skip_serializing_if = {}", v)));
                             }
                         }
-                        other => return Err(m.error(format!("serde({})", other))),
+                        other => {
+                            if LENIENT.with(|l| l.get()) {
+                                // lenient extraction: an attribute outside the modelled subset is skipped
+                                if let Ok(v) = m.value() {
+                                    let _ = v.parse::<syn::Lit>();
+                                }
+                            } else {
+                                return Err(m.error(format!("serde({})", other)));
+                            }
+                        }
                     }
                     Ok(())
                 })
